@@ -45,7 +45,7 @@ def gen (k : Nat) : G (List String) := do
     "file 3 - P0,ROT,P1,W0,ROT,W1,P2,W2", expectLine, "file 2 0d0a7c P1,ROT,ROT,W1,P0,W0", expectLine]
   for _ in [0:k] do
     let (n, plan) ← genPlan
-    let sep ← pick ["0a", "-", "0d0a", "7c7c7c"]
+    let sep ← pick ["0a", "-", "0d0a", "7c7c7c", "0a250a", "2525", "25730a"]
     out := out ++ ["file " ++ toString n ++ " " ++ sep ++ " " ++ ",".intercalate plan, expectLine]
   -- a rotation whose reopen fails (a directory sits at the path): nothing that was acknowledged may be missing
   out := out ++ ["filefault 20 0a", "expect @head res ok lostacked=0", "filefault 5 0d0a", "expect @head res ok lostacked=0",
@@ -54,7 +54,7 @@ def gen (k : Nat) : G (List String) := do
   for _ in [0:(k / 4 + 1)] do
     let w ← pick [4, 8, 16, 32]
     let per ← pick [20, 40, 80]
-    let sep ← pick ["0a", "0d0a", "7c7c7c"]
+    let sep ← pick ["0a", "0d0a", "7c7c7c", "2564"]
     out := out ++ ["filestress " ++ toString w ++ " " ++ toString per ++ " " ++ toString (← range 0 4) ++ " " ++ sep,
                    "expect res ok failed=0 missing=0 dup=0 junk=0"]
   pure out
